@@ -41,88 +41,134 @@ def _bool_key(body, bb):
     return ((root, tuple(fields)), tt, ft)
 
 
-def _merge_locals(body):
-    """bool locals that are only ever assigned boolean constants (the materialised result of `a && b`, `matches!(..)`,
-    `if let .. else ..` expressions): {local: {block: [values in statement order]}}"""
-    out = {}
+def _tracked_bools(body):
+    """bool locals whose value can decide a switch: discriminant locals of bool switches and, transitively, the locals
+    they are copied / negated from. Returns {local}. Arguments and locals whose address is taken mutably are excluded."""
     mb = flow.mut_borrowed(body)
-    for local, defs in body.defs().items():
-        if body.locals[local] != "bool" or not defs or local in mb or local <= body.argc:
+    S = set()
+    work = []
+    for bi in range(len(body.blocks)):
+        t = body.term(bi)
+        if t["k"] == "switch" and t["discr_ty"] == "bool" and t["discr"][0] in ("c", "m") and len(t["discr"][1]) == 1:
+            work.append(t["discr"][1][0])
+    while work:
+        l = work.pop()
+        if l in S or l in mb or l <= body.argc or body.locals[l] != "bool":
             continue
-        ok = True
-        per = {}
-        for d in defs:
-            if d[0] != "stmt" or len(d[3]) != 1:
-                ok = False
-                break
-            rv = d[4]
-            if rv[0] == "use" and rv[1][0] == "k" and isinstance(rv[1][1].get("v"), bool):
-                per.setdefault(d[1], []).append(rv[1][1]["v"])
-            else:
-                ok = False
-                break
-        if ok and len(defs) >= 2:
-            out[local] = per
+        S.add(l)
+        for d in body.defs().get(l, []):
+            if d[0] == "stmt" and len(d[3]) == 1:
+                rv = d[4]
+                src = None
+                if rv[0] == "use" and rv[1][0] in ("c", "m") and len(rv[1][1]) == 1:
+                    src = rv[1][1][0]
+                elif rv[0] == "un" and rv[1] == "Not" and rv[2][0] in ("c", "m") and len(rv[2][1]) == 1:
+                    src = rv[2][1][0]
+                if src is not None:
+                    work.append(src)
+    return S
+
+
+def _block_bool_effects(body, bb, S, eval_expr):
+    """ordered list of (local, kind, data) for assignments to tracked bool locals in block bb:
+    ('const', v) | ('copy', src) | ('not', src) | ('val', v) value known under the caller's assumptions | ('unknown',)"""
+    out = []
+    blk = body.blocks[bb]
+    for s in blk["s"]:
+        if s[0] != "=" or len(s[1]) != 1 or s[1][0] not in S:
+            continue
+        l, rv = s[1][0], s[2]
+        if rv[0] == "use" and rv[1][0] == "k" and isinstance(rv[1][1].get("v"), bool):
+            out.append((l, "const", rv[1][1]["v"]))
+        elif rv[0] == "use" and rv[1][0] in ("c", "m") and len(rv[1][1]) == 1 and rv[1][1][0] in S:
+            out.append((l, "copy", rv[1][1][0]))
+        elif rv[0] == "un" and rv[1] == "Not" and rv[2][0] in ("c", "m") and len(rv[2][1]) == 1 and rv[2][1][0] in S:
+            out.append((l, "not", rv[2][1][0]))
+        else:
+            v = None
+            if eval_expr is not None:
+                try:
+                    v = eval_expr(body, flow._rv_expr(body, rv, bb, 0, set()))
+                except Exception:
+                    v = None
+            out.append((l, "val", v) if isinstance(v, bool) else (l, "unknown", None))
+    t = blk["t"]
+    if t["k"] == "call" and len(t.get("dest", [])) == 1 and t["dest"][0] in S:
+        v = None
+        if eval_expr is not None and "callee" in t:
+            from facts import callee as _c
+            try:
+                v = eval_expr(body, ("call", _c(t), [flow.expr_of(body, a, bb) for a in t["args"]], bb))
+            except Exception:
+                v = None
+        out.append((t["dest"][0], "val", v) if isinstance(v, bool) else (t["dest"][0], "unknown", None))
     return out
 
 
-def _merge_switch(body, bb, merges):
-    """switch directly on a merge local (possibly through `Not`): (local, true_target, false_target)"""
-    t = body.term(bb)
-    if t["k"] != "switch" or t["discr_ty"] != "bool" or t["discr"][0] not in ("c", "m"):
-        return None
-    p = t["discr"][1]
-    if len(p) != 1 or p[0] not in merges:
-        return None
-    zero = None
-    for v, x in t["targets"]:
-        if v == "0":
-            zero = x
-    if zero is None:
-        return None
-    return (p[0], t["otherwise"], zero)
-
-
-def reachable_under(body, forced, track_bools=True, max_states=20000):
-    """blocks reachable from entry when `forced(body, bb)` (-> successor block or None) decides some switches
-    and bool tests on immutable paths stay consistent. Returns dict block -> one witness state (frozenset)."""
+def reachable_under(body, forced, track_bools=True, max_states=20000, eval_expr=None):
+    """blocks reachable from entry when `forced(body, bb)` (-> successor block or None) decides some switches,
+    bool tests on immutable paths stay consistent, and the values of bool locals that are assigned constants, copies,
+    negations or expressions that `eval_expr(body, expr)` can evaluate under the caller's assumptions are tracked along
+    each path (so `let ok = !a || b; if !ok {..}` and `matches!(..)` are followed exactly).
+    Returns dict block -> one witness state (frozenset)."""
     start = (0, frozenset())
     seen = {start}
     reach = {0: frozenset()}
     work = [start]
     cache = {}
-    merges = _merge_locals(body) if track_bools else {}
-    assigns = {}
-    for l, per in merges.items():
-        for b_, vals in per.items():
-            assigns.setdefault(b_, []).append((l, vals[-1]))
+    S = _tracked_bools(body) if track_bools else set()
+    effects = {}
     while work:
         bb, st = work.pop()
-        if bb in assigns:
-            d0 = dict(st)
-            for l, v in assigns[bb]:
-                d0[("mlocal", l)] = v
-            st = frozenset(d0.items())
         if len(seen) > max_states:
             # give up path sensitivity: fall back to plain reachability (sound over-approximation)
             for b in body.reachable_from(0):
                 reach.setdefault(b, frozenset())
             return reach
+        if S:
+            if bb not in effects:
+                effects[bb] = _block_bool_effects(body, bb, S, eval_expr)
+            if effects[bb]:
+                d0 = dict(st)
+                # statements first; the call terminator's destination (last entry, if any) is written on the way out
+                for (l, kind, data) in effects[bb]:
+                    key = ("b", l)
+                    if kind in ("const", "val"):
+                        d0[key] = data
+                    elif kind == "copy" and ("b", data) in d0:
+                        d0[key] = d0[("b", data)]
+                    elif kind == "not" and ("b", data) in d0:
+                        d0[key] = not d0[("b", data)]
+                    else:
+                        d0.pop(key, None)
+                st = frozenset(d0.items())
         f = forced(body, bb)
         if f is not None:
             nxt = [(f, st)]
         else:
             bk = None
-            if track_bools:
+            t = body.term(bb)
+            lk = None
+            if track_bools and t["k"] == "switch" and t["discr_ty"] == "bool" and t["discr"][0] in ("c", "m") and len(t["discr"][1]) == 1 and t["discr"][1][0] in S:
+                zero = [x for v, x in t["targets"] if v == "0"]
+                if zero:
+                    lk = (("b", t["discr"][1][0]), t["otherwise"], zero[0], True)
+            if lk is not None and lk[0] in dict(st):
+                bk = lk                       # the local's value is known on this path
+            elif track_bools:
                 if bb not in cache:
-                    ms = _merge_switch(body, bb, merges)
-                    cache[bb] = ((("mlocal", ms[0]), ms[1], ms[2]) if ms else _bool_key(body, bb))
-                bk = cache[bb]
+                    k0 = _bool_key(body, bb)
+                    cache[bb] = (k0[0], k0[1], k0[2], False) if k0 else None
+                bk = cache[bb] or lk          # a test of an immutable flag (keyed by its access path), else the local
             if bk is not None:
-                key, tt, ft = bk
+                key, tt, ft, is_local = bk
                 d = dict(st)
                 if key in d:
                     nxt = [(tt if d[key] else ft, st)]
+                elif is_local:
+                    # value not known on this path: both ways (the choice is not recorded: it would multiply the states
+                    # by every log-level test and similar one-off conditions)
+                    nxt = [(tt, st), (ft, st)]
                 else:
                     nxt = [(tt, st | {(key, True)}), (ft, st | {(key, False)})]
             else:
@@ -142,11 +188,14 @@ _VEC_NEW = _re.compile(r"^std::vec::Vec::<T>::(new|with_capacity)$|^<std::vec::V
 _PUSH = _re.compile(r"^std::vec::Vec::<T, A>::(push|insert|append|extend_from_slice|resize|push_within_capacity)$|as std::iter::Extend<.*>>::extend$")
 _NEXT = _re.compile(r"as std::iter::Iterator>::next$")
 _READONLY = _re.compile(r"::(len|is_empty|iter|as_slice|first|last|get|contains)$")
+_TERMINAL = _re.compile(r"^std::iter::Iterator::(try_for_each|for_each|fold|try_fold|all|any|find|find_map|position|count|last|max|min|sum)$|ParallelIterator::(try_for_each|for_each)$")
 
 
-def empty_loop_forcing(body, reach):
+def empty_loop_forcing(body, reach, dead_calls=None):
     """loops over a Vec that is created empty in this body and only filled at blocks outside `reach` cannot run:
-    returns {switch_block: forced_successor} for the `match iter.next()` of such loops"""
+    returns {switch_block: forced_successor} for the `match iter.next()` of such loops; terminal iterator consumers
+    (`v.iter().try_for_each(closure)`) over such a Vec never invoke their closure: their call blocks are added to
+    `dead_calls` (a set) when given"""
     forced = {}
     for bb, t in body.calls():
         if "callee" not in t or not _VEC_NEW.search(_callee(t)):
@@ -157,21 +206,26 @@ def empty_loop_forcing(body, reach):
         seen, consumers, ret = flow.forward_aliases(body, d[0], limit=80)
         if ret:
             continue
-        pushes, nexts, unknown = [], [], False
+        pushes, nexts, terms, unknown = [], [], [], False
+        from facts import callee_decl as _cdecl
         for (cb, ct, ai) in consumers:
             c = _callee(ct)
             if ai == 0 and _PUSH.search(c):
                 pushes.append(cb)
             elif ai == 0 and _NEXT.search(c):
                 nexts.append((cb, ct))
+            elif ai == 0 and (_TERMINAL.search(c) or _TERMINAL.search(_cdecl(ct))):
+                terms.append(cb)
             elif _READONLY.search(c):
                 pass
             else:
                 unknown = True
-        if unknown or not nexts:
+        if unknown or not (nexts or terms):
             continue
         if any(p in reach for p in pushes):
             continue
+        if dead_calls is not None:
+            dead_calls.update(terms)
         for (nb, nt) in nexts:
             res = nt["dest"][0]
             sw = nt.get("to")
@@ -195,7 +249,7 @@ def empty_loop_forcing(body, reach):
     return forced
 
 
-def reachable_under_refined(body, forced, rounds=4):
+def reachable_under_refined(body, forced, rounds=4, eval_expr=None):
     """reachable_under + refinement by empty_loop_forcing to a fixed point"""
     extra = {}
 
@@ -204,11 +258,16 @@ def reachable_under_refined(body, forced, rounds=4):
         if r is not None:
             return r
         return extra.get(bb)
-    reach = reachable_under(body, f)
+    reach = reachable_under(body, f, eval_expr=eval_expr)
+    dead = set()
     for _ in range(rounds):
-        e2 = empty_loop_forcing(body, reach)
-        if all(k in extra for k in e2):
+        d2 = set()
+        e2 = empty_loop_forcing(body, reach, d2)
+        if all(k in extra for k in e2) and d2 <= dead:
             break
         extra.update(e2)
-        reach = reachable_under(body, f)
-    return reach
+        dead |= d2
+        reach = reachable_under(body, f, eval_expr=eval_expr)
+    # a terminal consumer over a provably empty Vec runs, but its closure never does: drop the call's block so that the
+    # effects attributed to the closure at that site are not counted
+    return {b: v for b, v in reach.items() if b not in dead}
